@@ -32,6 +32,9 @@ type Finding struct {
 	Entry       string `json:"entry,omitempty"`
 	// Rates: stratum -> calibrated per-case rate on the unchanged tree (call-site kind).
 	Rates map[string]float64 `json:"rates,omitempty"`
+	// TimeoutS: watchdog for the witnesses of a finding whose failure is a hang (each witness runs in a
+	// process of its own and the watchdog firing is the expected observation).
+	TimeoutS int `json:"timeout_s,omitempty"`
 }
 
 type findingsFile struct {
@@ -57,6 +60,7 @@ func Main() {
 	prop := flag.String("prop", "", "property id")
 	replay := flag.String("replay", "", "replay file")
 	worker := flag.String("worker", "", "internal: worker args json file")
+	dump := flag.String("dump", "", "development aid: print the JSON of generated case stratum,index (uses VERIF_SEED)")
 	flag.Parse()
 	if *worker != "" {
 		b, err := os.ReadFile(*worker)
@@ -99,6 +103,17 @@ func Main() {
 		if v, err := strconv.Atoi(j); err == nil && v > 0 {
 			d.Jobs = v
 		}
+	}
+	if *dump != "" {
+		parts := strings.Split(*dump, ",")
+		idx, _ := strconv.Atoi(parts[1])
+		for i := range p.Strata {
+			if p.Strata[i].Name == parts[0] {
+				_, b := CaseHash(p.Strata[i].Gen(NewRng(seed, p.ID, parts[0], idx)))
+				fmt.Println(string(b))
+			}
+		}
+		os.Exit(0)
 	}
 	d.Findings = loadFindings(filepath.Join(*verif, "known_findings.json"), p.ID)
 	if *replay != "" {
@@ -239,6 +254,12 @@ func (d *Driver) Run() int {
 		name := "witness:" + f.ID
 		order = append(order, name)
 		aggs[name] = NewAgg()
+		if f.TimeoutS > 0 {
+			for i := range f.Witnesses {
+				add(chunk{stratum: name, from: i, to: i + 1, witnesses: f.Witnesses, solo: true, timeoutS: f.TimeoutS})
+			}
+			continue
+		}
 		add(chunk{stratum: name, from: 0, to: len(f.Witnesses), witnesses: f.Witnesses})
 	}
 	total := 0
@@ -405,7 +426,7 @@ func (d *Driver) matchFinding(v ViolationRec, witnessHashes map[string]*Finding)
 	if f, ok := witnessHashes[v.Hash]; ok && f.Status == "open" {
 		return f
 	}
-	if v.PanicVal == "" || len(v.Msgs) == 0 {
+	if len(v.Msgs) == 0 {
 		return nil
 	}
 	// call-site: every failure message of the case must be a panic explained by some open call-site
@@ -419,8 +440,12 @@ func (d *Driver) matchFinding(v ViolationRec, witnessHashes map[string]*Finding)
 			if f.Status != "open" || f.Kind != "call-site" {
 				continue
 			}
-			if strings.HasPrefix(m, "panic:"+f.Entry+": "+f.Entry+" panicked at "+f.Site+": "+f.PanicPrefix) {
-				hit = f
+			for _, entry := range strings.Split(f.Entry, "|") { // several public entry points may reach one site
+				if strings.HasPrefix(m, "panic:"+entry+": "+entry+" panicked at "+f.Site+": "+f.PanicPrefix) {
+					hit = f
+				}
+			}
+			if hit != nil {
 				break
 			}
 		}
